@@ -244,7 +244,7 @@ include hlo hhi
 theorem tableLookup_cons_hit {r : TRow} {rest : List TRow} {x : Rat} (c : Col)
     (h1 : (r.lo : Rat) ≤ x) (h2 : x < (r.hi : Rat)) :
     tableLookup cfg (some c) x (r :: rest) = .ok ((r.cell c : Nat) : Rat) := by
-  simp [tableLookup, hlo, hhi, Cmp.holds, h1, h2]
+  simp [tableLookup, hlo, hhi, BoundCmp.holds, h1, h2]
 
 theorem tableLookup_cons_miss {r : TRow} {rest : List TRow} {x : Rat} (col : Option Col)
     (h : x < (r.lo : Rat) ∨ (r.hi : Rat) ≤ x) :
@@ -254,7 +254,7 @@ theorem tableLookup_cons_miss {r : TRow} {rest : List TRow} {x : Rat} (col : Opt
     rcases h with h | h
     · exact absurd h1 (not_le.mpr h)
     · exact absurd h2 (not_lt.mpr h)
-  simp only [tableLookup, hlo, hhi, Cmp.holds, Bool.and_eq_true, decide_eq_true_eq]
+  simp only [tableLookup, hlo, hhi, BoundCmp.holds, Bool.and_eq_true, decide_eq_true_eq]
   rw [if_neg this]
 
 /-- Below the first possible start nothing matches: `assert False`. -/
@@ -536,15 +536,15 @@ theorem worksheetLookup_rest {y : Year} {c : Col} {cur e : Rat} {rows : List WRo
     obtain ⟨hlo, _, hok, hchain⟩ := wsChain_cons h
     have hlower : cfg.wsRestLo.holds x w.lo = true := by
       rw [hlo]
-      rcases hRest with hr | hr <;> rw [hr] <;> simp [Cmp.holds, h1, le_of_lt h1]
+      rcases hRest with hr | hr <;> rw [hr] <;> simp [BoundCmp.holds, h1, le_of_lt h1]
     by_cases hxh : x ≤ w.hi
     · have hx1 : w.lo ≤ x := by rw [hlo]; exact le_of_lt h1
-      have hhi : cfg.wsHi.holds x w.hi = true := by rw [hHi]; simp [Cmp.holds, hxh]
+      have hhi : cfg.wsHi.holds x w.hi = true := by rw [hHi]; simp [BoundCmp.holds, hxh]
       rw [worksheetLookup_cons]
       simp only [↓reduceIte, hlower, hhi, Bool.and_self, Bool.false_eq_true]
       rw [wsRowOk_sound hok hx1 hxh]
     · have : worksheetLookup cfg x false (w :: rest) = worksheetLookup cfg x false rest := by
-        simp [worksheetLookup, hHi, Cmp.holds, hxh]
+        simp [worksheetLookup, hHi, BoundCmp.holds, hxh]
       rw [this]
       exact ih hchain (not_le.mp hxh)
 
@@ -560,15 +560,15 @@ theorem worksheetLookup_first {y : Year} {c : Col} {cur e : Rat} {rows : List WR
   | cons w rest =>
     obtain ⟨hlo, _, hok, hchain⟩ := wsChain_cons h
     have hlower : cfg.wsFirstLo.holds x w.lo = true := by
-      rw [hlo, hFirst]; simp [Cmp.holds, h1]
+      rw [hlo, hFirst]; simp [BoundCmp.holds, h1]
     by_cases hxh : x ≤ w.hi
     · have hx1 : w.lo ≤ x := by rw [hlo]; exact h1
-      have hhi : cfg.wsHi.holds x w.hi = true := by rw [hHi]; simp [Cmp.holds, hxh]
+      have hhi : cfg.wsHi.holds x w.hi = true := by rw [hHi]; simp [BoundCmp.holds, hxh]
       rw [worksheetLookup_cons]
       simp only [↓reduceIte, hlower, hhi, Bool.and_self]
       rw [wsRowOk_sound hok hx1 hxh]
     · have : worksheetLookup cfg x true (w :: rest) = worksheetLookup cfg x false rest := by
-        simp [worksheetLookup, hHi, Cmp.holds, hxh]
+        simp [worksheetLookup, hHi, BoundCmp.holds, hxh]
       rw [this]
       exact worksheetLookup_rest hRest hHi hchain (not_le.mp hxh) h2
 
@@ -638,13 +638,13 @@ include hb
 theorem figureTaxQ_lt (st : Status) {x : Rat} (hx : x < 100000) :
     figureTaxQ d x st = tableLookup d.cfg (some st.specCol) x d.table := by
   obtain ⟨f1, f2, _⟩ := Cfg.isStd_fields hb.cfg
-  simp [figureTaxQ, f1, f2, Cmp.holds, hx, statusCol_of_ok hb.status st]
+  simp [figureTaxQ, f1, f2, BoundCmp.holds, hx, statusCol_of_ok hb.status st]
 
 /-- From 100000 on it is the worksheet section of the status's statutory column. -/
 theorem figureTaxQ_ge (st : Status) {x : Rat} (hx : 100000 ≤ x) :
     figureTaxQ d x st = worksheetLookup d.cfg x true (d.ws st.specCol) := by
   obtain ⟨f1, f2, _⟩ := Cfg.isStd_fields hb.cfg
-  simp [figureTaxQ, f1, f2, Cmp.holds, not_lt.mpr hx, statusCol_of_ok hb.status st]
+  simp [figureTaxQ, f1, f2, BoundCmp.holds, not_lt.mpr hx, statusCol_of_ok hb.status st]
 
 /-- **Table region, holes allowed.**  For `0 ≤ x < 100000` either `x` lies in a hole of the table and
 `figure_tax` raises `AssertionError`, or it returns the IRS table entry of x's row. -/
